@@ -38,10 +38,21 @@ def build(tree):
         def __eq__(self, other):
             return self is other
 
-    class DJob(Hashed, AbstractJob):
+    class Labelled:
+        """user subclasses may provide text_label() / graph_label()"""
+        _vtext = None
+        _vgraph = None
+
+        def text_label(self):
+            return self._vtext
+
+        def graph_label(self):
+            return self._vgraph
+
+    class DJob(Hashed, Labelled, AbstractJob):
         pass
 
-    class DSched(Hashed, Scheduler):
+    class DSched(Hashed, Labelled, Scheduler):
         pass
 
     kids = {i: [] for i in range(1, n + 1)}
@@ -49,9 +60,15 @@ def build(tree):
         kids[tree["parent"][i - 1]].append(i)
     obj = {}
 
-    def label(i):
-        cps = tree["label"][i - 1]
+    def text(cps):
         return None if cps is None else "".join(chr(c) for c in cps)
+
+    def label(i):
+        return text(tree["label"][i - 1])
+
+    def decorate(o, i):
+        o._vtext = text((tree.get("tlabel") or [None] * n)[i - 1])
+        o._vgraph = text((tree.get("glabel") or [None] * n)[i - 1])
 
     def mk(i):
         if tree["kind"][i - 1] == "job":
@@ -69,6 +86,8 @@ def build(tree):
                 Scheduler.__init__(o, *members, critical=tree["crit"][i - 1],
                                    forever=tree["forever"][i - 1], label=label(i))
         obj[i] = o
+        if not (i == 1 and tree["pure"]):
+            decorate(o, i)
         return o
     mk(1)
     if tree.get("pre"):
